@@ -104,27 +104,46 @@ def run(ctx, repo):
     lens = {ast.unparse(n.targets[0]): ast.unparse(n.value.args[0]) for n in ast.walk(fa) if isinstance(n, ast.Assign) and isinstance(n.value, ast.Call)
             and call_name(n.value) == 'len' and len(n.targets) == 1}
     agesp = fa.args.args[2].arg if len(fa.args.args) > 2 else 'ages'
-    last_if = [n for n in fa.body if isinstance(n, ast.If)]
-    clamp = None
-    for n in last_if:
-        cur = n
-        while cur is not None:
-            if cur.orelse and not (len(cur.orelse) == 1 and isinstance(cur.orelse[0], ast.If)):
-                clamp = cur.orelse
-            cur = cur.orelse[0] if len(cur.orelse) == 1 and isinstance(cur.orelse[0], ast.If) else None
-    ok = False
-    if clamp:
-        for st in clamp:
-            if isinstance(st, ast.Assign) and isinstance(st.value, ast.BinOp) and isinstance(st.value.op, ast.Sub) \
-                    and isinstance(st.value.right, ast.Constant) and st.value.right.value == 1:
-                l = ast.unparse(st.value.left)
-                if lens.get(l) == agesp or l == 'len(%s)' % agesp:
-                    ok = True
-    if ok:
-        ctx.ok('R3', 'find_age clamps to len(ages) - 1')
+    # decided by folding find_age (a pure function of its arguments) on every age list of the data, at ages past the last column: both
+    # indices must be the last column.  No shape of the function is assumed.
+    from .. import fold as _fold
+    fc_ = _fold.FuncConst(fa, dict(repo.folded(AGE)[0]))
+    ok, clamp_bad, n_cl = True, None, 0
+    for rel_ in ('athlib/wma/wma-data-2015.json', 'athlib/wma/wma-data-2023.json', 'athlib/wma/wma-athlons-data.json'):
+        if n_cl < 0:
+            break
+        try:
+            ages_ = repo.json(rel_).get('ages')
+        except Exception:
+            ages_ = None
+        if not ages_:
+            continue
+        for a_ in (ages_[-1] + 0.5, ages_[-1] + 1, ages_[-1] + 5, 150):
+            if n_cl < 0:
+                break
+            for interp_ in (True, False):
+                try:
+                    r_ = _fold.Folder().call(fc_, [None, a_, ages_], {'interpolate': interp_} if any(x.arg == 'interpolate' for x in fa.args.args + fa.args.kwonlyargs) else {})
+                except Exception as e:
+                    # not a function of its arguments any more (rule R9 / HIST speak about that): the clamp is not decided here
+                    ctx.info('R3: find_age is not foldable (%s: %s); clamp index not decided' % (type(e).__name__, e))
+                    n_cl = -1
+                    break
+                n_cl += 1
+                if not (isinstance(r_, tuple) and len(r_) >= 2 and r_[0] == r_[1] == len(ages_) - 1):
+                    ok = False
+                    clamp_bad = clamp_bad or (rel_.split('/')[-1], a_, r_)
+    ctx.count('find_age folded past the last column', max(n_cl, 0))
+    if n_cl == 0:
+        raise AnalysisError('find_age: no age list found in the data files')
+    if n_cl < 0:
+        pass
+    elif ok:
+        ctx.ok('R3', 'find_age clamps to len(ages) - 1 (folded on %d ages past the last column of every table)' % n_cl)
     elif not any(f.rule == 'R1' for f in ctx.findings):
         ctx.finding('R3', '%s::AgeGrader.find_age::clamp index' % AGE, AGE, fa.lineno,
-                    'the arm for ages past the last column does not select index len(%s) - 1' % agesp)
+                    'the arm for ages past the last column does not select index len(%s) - 1: with the ages of %s, age %s gives %s' % (
+                        (agesp,) + clamp_bad), clamp_bad[1])
     # scan bounds: the column / row scans must be able to run off the end (that is what selects the clamping arm)
     for q, seq_idx in (('AgeGrader.find_age', 2), ('AgeGrader.find_row_by_distance', 2)):
         f = mod.func(q)
